@@ -1779,4 +1779,266 @@ Section Proofs.
   Lemma thm_pass_extends fuel root R0 R r :
     reqs_wf R0 -> pass fuel root R0 = (R, r) -> reqs_extends R0 R.
   Proof. intros W P. eapply pass_wf_ext; eauto. Qed.
+  (* ================================================================ totality: with enough fuel a resolution
+     returns a graph or an error: never Panic, never OutOfFuel.
+     Measure of one pass: (length of the queue) + (number of distinct version keys of U that are not yet nodes),
+     where U is a finite list containing every version key the client can answer with.  Popping an entry lowers
+     the first term; the only way the queue grows is the creation of a node, whose key is an answer of the client
+     (in U) and is not yet a node, which lowers the second term by as much.  The retry loop runs the same pass at
+     most maxRetries + 1 times with the same fuel. *)
+  Section Total.
+  Variable U : list vkey.
+
+  Definition answers_in : Prop :=
+    (forall k v, c_version k = Ok v -> In (v_vk v) U) /\
+    (forall pk vs, c_versions pk = Ok vs -> forall v, In v vs -> In (v_vk v) U).
+
+  (* an answer of the client: a value or an error that is not the model's own fuel marker; a client that
+     panics makes Resolve panic (the panic is the client's), so totality is about clients that do not *)
+  Definition res_plain {A} (r : res A) : Prop :=
+    match r with Ok _ => True | Err e => e <> EFuel | Panic _ => False | OutOfFuel => False end.
+  Definition client_total : Prop :=
+    (forall k, res_plain (c_version k)) /\ (forall k, res_plain (c_versions k)) /\
+    (forall k, res_plain (c_requirements k)) /\ (forall s, res_plain (is_simple s)).
+
+  Lemma is_excluded_plain ex n : res_plain (is_excluded ex n).
+  Proof.
+    unfold is_excluded. destruct ex as [l|]; simpl; auto.
+    destruct (in_excl b_star_star l); simpl; auto. destruct (in_excl n l); simpl; auto.
+    destruct (split_on c_colon n []) as [|g [|a [|x y]]]; simpl; auto; discriminate.
+  Qed.
+
+  Lemma fm_open_plain i r a : client_total -> res_plain (fm_open i r a).
+  Proof.
+    intros [_ [Tv _]]. unfold MavenRes.fm_open. destruct (fm_hidx a); simpl; auto.
+    specialize (Tv (vk_pk r)). destruct (c_versions (vk_pk r)) as [vs|e| |]; simpl in *; auto.
+    unfold versions_desc. destruct (12 <? N.of_nat (length vs)); simpl; auto. discriminate.
+  Qed.
+
+  Lemma fm_scan_plain : client_total -> forall reqs i a, res_plain (fm_scan i reqs a).
+  Proof.
+    intros T. induction reqs as [|r reqs IH]; intros i a; simpl; auto.
+    destruct T as [Tc [Tv [Tr Ts]]]. pose proof (Ts (vk_ver r)) as Hs.
+    destruct (is_simple (vk_ver r)) as [s|e| |]; simpl in *; auto.
+    destruct s; [apply IH|].
+    pose proof (fm_open_plain i r a (conj Tc (conj Tv (conj Tr Ts)))) as Ho.
+    destruct (fm_open i r a) as [a1|e| |]; simpl in *; auto.
+    destruct (existsb _ (fm_vers a1)); [apply IH|]. simpl. discriminate.
+  Qed.
+
+  Lemma fm_pick_plain : client_total -> forall softs i a, res_plain (fm_pick i softs a).
+  Proof.
+    intros T. induction softs as [|s softs IH]; intros i a; simpl.
+    - destruct (at_hard a i); [destruct (first_listed cmatch a)|]; simpl; auto; discriminate.
+    - destruct (if at_hard a i then first_listed cmatch a else None); simpl; auto.
+      destruct (matches_all cmatch (fm_hard a) (vk_ver s)); [|apply IH].
+      destruct T as [Tc _]. apply Tc.
+  Qed.
+
+  Lemma find_match_plain l : client_total -> res_plain (find_match l).
+  Proof.
+    intros T. unfold MavenRes.find_match. destruct l as [|r0 rest]; [simpl; discriminate|].
+    destruct (existsb _ rest); [simpl; discriminate|].
+    pose proof (fm_scan_plain T (r0 :: rest) 0%nat (mkFm [] [] None [])) as Hs.
+    destruct (fm_scan 0 (r0 :: rest) (mkFm [] [] None [])) as [a|e| |]; [|exact Hs|exact Hs|exact Hs].
+    unfold bind. now apply fm_pick_plain.
+  Qed.
+
+  Lemma fm_scan_U : answers_in -> forall reqs i a a',
+      (forall v, In v (fm_vers a) -> In (v_vk v) U) ->
+      fm_scan i reqs a = Ok a' -> forall v, In v (fm_vers a') -> In (v_vk v) U.
+  Proof.
+    intros [_ Av]. induction reqs as [|r reqs IH]; intros i a a' Hv; simpl.
+    - intros H; inversion H; subst; auto.
+    - destruct (is_simple (vk_ver r)) as [s| | |]; simpl; try discriminate.
+      destruct s; [apply IH; auto|].
+      destruct (fm_open i r a) as [a1| | |] eqn:O; simpl; try discriminate.
+      destruct (existsb _ (fm_vers a1)); [|discriminate].
+      apply IH; simpl.
+      revert O. unfold MavenRes.fm_open. destruct (fm_hidx a); [intros O; inversion O; subst; auto|].
+      destruct (c_versions (vk_pk r)) as [vs| | |] eqn:V; simpl; try discriminate.
+      destruct (versions_desc vless vs) as [ds| | |] eqn:D; simpl; try discriminate.
+      intros O; inversion O; subst; simpl. intros v Hin. apply (versions_desc_in _ _ _ D) in Hin.
+      eapply Av; eauto.
+  Qed.
+
+  Lemma fm_pick_U : answers_in -> forall softs i a v,
+      (forall x, In x (fm_vers a) -> In (v_vk x) U) -> fm_pick i softs a = Ok v -> In (v_vk v) U.
+  Proof.
+    intros [Ac _]. induction softs as [|s softs IH]; intros i a v Hv; simpl.
+    - destruct (at_hard a i); [|discriminate].
+      destruct (first_listed cmatch a) eqn:F; [|discriminate]. intros H; inversion H; subst.
+      apply Hv. unfold first_listed in F. apply find_some in F. tauto.
+    - destruct (if at_hard a i then first_listed cmatch a else None) eqn:F.
+      + intros H; inversion H; subst. destruct (at_hard a i); [|discriminate].
+        apply Hv. unfold first_listed in F. apply find_some in F. tauto.
+      + destruct (matches_all cmatch (fm_hard a) (vk_ver s)); [apply Ac | apply IH; auto].
+  Qed.
+
+  Lemma find_match_U l m : answers_in -> find_match l = Ok m -> In (v_vk m) U.
+  Proof.
+    intros A. unfold MavenRes.find_match. destruct l as [|r0 rest]; [discriminate|].
+    destruct (existsb _ rest); [discriminate|].
+    destruct (fm_scan 0 (r0 :: rest) (mkFm [] [] None [])) as [a| | |] eqn:Sc; simpl; try discriminate.
+    apply fm_pick_U; auto. eapply fm_scan_U; eauto. intros v [].
+  Qed.
+
+  Lemma imports_plain vk opt : client_total -> res_plain (imports vk opt).
+  Proof.
+    intros [_ [_ [Tr _]]]. unfold MavenRes.imports. specialize (Tr vk).
+    destruct (c_requirements vk); simpl in *; auto.
+  Qed.
+
+  (* the three places where the model turns a Panic / OutOfFuel outcome into an error are unreachable *)
+  Lemma absorbed_unreachable : client_total ->
+    (forall ex n, res_plain (is_excluded ex n)) /\ (forall l, res_plain (find_match l)) /\
+    (forall vk opt, res_plain (imports vk opt)).
+  Proof.
+    intros T. split; [intros; apply is_excluded_plain|]. split; [intros; now apply find_match_plain|].
+    intros; now apply imports_plain.
+  Qed.
+
+  (* the measure *)
+  Definition notin (nodes : list vkey) (u : vkey) : bool := negb (memb vkey_dec u nodes).
+  Definition ufree (nodes : list vkey) : nat := length (filter (notin nodes) (nodup vkey_dec U)).
+  Definition mu (st : pst) : nat := (length (s_todo st) + ufree (g_nodes (s_g st)))%nat.
+
+  Lemma filter_snoc_count (L : list vkey) : NoDup L -> forall nodes x, In x L -> ~ In x nodes ->
+    S (length (filter (notin (nodes ++ [x])) L)) = length (filter (notin nodes) L).
+  Proof.
+    induction 1 as [|a L Ha Hn IH]; intros nodes x Hx Hnx; [contradiction|].
+    simpl. assert (Eother : forall y, y <> x -> notin (nodes ++ [x]) y = notin nodes y).
+    { intros y Hy. unfold notin. f_equal. destruct (memb vkey_dec y nodes) eqn:M.
+      - apply memb_In. apply memb_In in M. apply in_or_app; auto.
+      - apply memb_not_In. apply memb_not_In in M. intros H. apply in_app_or in H. destruct H as [H|[H|[]]]; auto. }
+    destruct Hx as [->|Hx].
+    - assert (E1 : notin (nodes ++ [x]) x = false).
+      { unfold notin. apply negb_false_iff. apply memb_In. apply in_or_app; simpl; auto. }
+      assert (E2 : notin nodes x = true).
+      { unfold notin. apply negb_true_iff. now apply memb_not_In. }
+      rewrite E1, E2. simpl. f_equal.
+      f_equal. apply filter_ext_in. intros y Hy. apply Eother. intros ->. contradiction.
+    - assert (Hax : a <> x) by (intros ->; contradiction).
+      rewrite (Eother a Hax). destruct (notin nodes a); simpl; [f_equal|]; apply IH; auto.
+  Qed.
+
+  Lemma ufree_snoc nodes x : In x U -> ~ In x nodes -> S (ufree (nodes ++ [x])) = ufree nodes.
+  Proof.
+    intros Hx Hn. unfold ufree. apply filter_snoc_count; auto.
+    - apply NoDup_nodup.
+    - now apply nodup_In.
+  Qed.
+
+  Lemma nodup_length_le (l : list vkey) : (length (nodup vkey_dec l) <= length l)%nat.
+  Proof. induction l as [|a l IH]; simpl; auto. destruct (in_dec vkey_dec a l); simpl; lia. Qed.
+
+  Lemma filter_length_le' {A} (f : A -> bool) l : (length (filter f l) <= length l)%nat.
+  Proof. induction l as [|a l IH]; simpl; auto. destruct (f a); simpl; lia. Qed.
+
+  Lemma ufree_le nodes : (ufree nodes <= length U)%nat.
+  Proof. unfold ufree. eapply Nat.le_trans; [apply filter_length_le' | apply nodup_length_le]. Qed.
+
+  Section OnePass.
+  Variable mgt : list (mkey * vkey).
+  Hypothesis A : answers_in.
+  Hypothesis T : client_total.
+
+  Lemma dep_go_mu first cur st d st' : dep_go mgt first cur st d st' -> (mu st' <= mu st)%nat.
+  Proof.
+    intros Hgo. inversion Hgo; subst; clear Hgo; unfold mu; simpl; auto.
+    rewrite app_length. simpl.
+    pose proof (ufree_snoc (g_nodes (s_g st)) (v_vk m) (find_match_U _ _ A H0) H3). lia.
+  Qed.
+
+  Lemma process_dep_nofuel first cur st d st' f :
+    process_dep first cur mgt st d = (st', f) -> f <> Stop EFuel.
+  Proof.
+    unfold MavenRes.process_dep.
+    pose proof (is_excluded_plain (n_excl cur) (pk_name (vk_pk (d_vk d)))) as Hx.
+    destruct (is_excluded (n_excl cur) (pk_name (vk_pk (d_vk d)))) as [[|]|e| |]; simpl in Hx;
+      try contradiction; try (intros H; inversion H; subst; discriminate).
+    - set (l := reqs_of _ _). pose proof (find_match_plain l T) as Hf.
+      destruct (find_match l) as [m|e| |]; simpl in Hf; try contradiction.
+      + destruct (memb mvkey_dec _ _); [intros H; inversion H; discriminate|].
+        destruct (memb mkey_dec _ _); [intros H; inversion H; discriminate|].
+        destruct (v_registries m); [intros H; inversion H; discriminate|].
+        destruct (memb vkey_dec _ _); intros H; inversion H; discriminate.
+      + destruct (e =? ENoMatch); intros H; inversion H; subst; [discriminate|].
+        intros E; inversion E; subst. apply Hf; reflexivity.
+    - intros H; inversion H; subst. intros E; inversion E; subst. apply Hx; reflexivity.
+  Qed.
+
+  Lemma process_deps_mu first cur : forall ds st st' f,
+      process_deps first cur mgt st ds = (st', f) -> f <> Stop EFuel /\ (f = Go -> (mu st' <= mu st)%nat).
+  Proof.
+    induction ds as [|d ds IH]; intros st st' f H; simpl in H.
+    - inversion H; subst. split; [discriminate | auto].
+    - destruct (process_dep first cur mgt st d) as [st1 f1] eqn:P. destruct f1.
+      + destruct (IH _ _ _ H) as [N M]. split; auto. intros E.
+        apply process_dep_go in P. apply dep_go_mu in P. specialize (M E). lia.
+      + inversion H; subst. split; [eapply process_dep_nofuel; eauto | discriminate].
+  Qed.
+
+  Lemma step_mu first cur st st' f :
+    step first mgt cur st = (st', f) -> f <> Stop EFuel /\ (f = Go -> (mu st' <= mu st)%nat).
+  Proof.
+    unfold MavenRes.step. destruct (n_incl cur); [intros H; inversion H; subst; split; [discriminate | auto]|].
+    unfold MavenRes.imports. destruct T as [_ [_ [Tr _]]]. specialize (Tr (n_vk cur)).
+    destruct (c_requirements (n_vk cur)) as [imps|e| |]; simpl in *; try contradiction.
+    - apply process_deps_mu.
+    - intros H; inversion H; subst. split; [|discriminate]. intros E; inversion E; subst. apply Tr; reflexivity.
+  Qed.
+
+  Lemma bfs_total : forall fuel first st st' f,
+      (mu st <= fuel)%nat -> bfs fuel first mgt st = (st', f) -> f <> Stop EFuel.
+  Proof.
+    induction fuel as [|fuel IH]; intros first st st' f Hm; simpl.
+    - destruct (s_todo st) eqn:Td; [intros H; inversion H; discriminate|].
+      unfold mu in Hm. rewrite Td in Hm. simpl in Hm. lia.
+    - destruct (s_todo st) as [|cur rest] eqn:Td; [intros H; inversion H; discriminate|].
+      destruct (step first mgt cur (set_todo st rest)) as [st1 f1] eqn:S.
+      destruct (step_mu _ _ _ _ _ S) as [N M]. destruct f1.
+      + apply IH. specialize (M eq_refl). unfold mu in *. rewrite Td in Hm. simpl in *. lia.
+      + intros H; inversion H; subst. exact N.
+  Qed.
+  End OnePass.
+
+  Definition good (r : res graph) : Prop := match r with Panic _ => False | OutOfFuel => False | _ => True end.
+
+  Lemma pass_total fuel root R : answers_in -> client_total -> (S (length U) <= fuel)%nat ->
+    good (snd (pass fuel root R)).
+  Proof.
+    intros A T Hf. unfold MavenRes.pass.
+    destruct (negb (pk_sys (vk_pk root) =? system_Maven)); simpl; auto.
+    destruct (negb (vk_vt root =? vtype_Concrete)); simpl; auto.
+    destruct T as [Tc [Tv [Tr Ts]]]. pose proof (Tc root) as Hc.
+    destruct (c_version root) as [ver|e| |]; simpl in *; auto.
+    destruct (v_registries ver); simpl; auto.
+    unfold dependency_management. pose proof (Tr (v_vk ver)) as Hr.
+    destruct (c_requirements (v_vk ver)) as [imps|e| |]; simpl in *; auto.
+    destruct (bfs fuel true (mgt_of imps) (init_st root R)) as [st f] eqn:B. simpl.
+    apply bfs_total in B; auto.
+    - destruct f as [|e]; simpl; auto. destruct (e =? EFuel) eqn:E; simpl; auto.
+      apply N.eqb_eq in E. subst. apply B. reflexivity.
+    - repeat split; auto.
+    - unfold mu. simpl. pose proof (ufree_le [root]). lia.
+  Qed.
+
+  Lemma retry_total fuel root : answers_in -> client_total -> (S (length U) <= fuel)%nat ->
+    forall n R r, good r -> good (snd (retry n fuel root R r)).
+  Proof.
+    intros A T Hf. induction n as [|n IH]; intros R r G; simpl; auto.
+    destruct (is_incompat r); simpl; auto.
+    pose proof (pass_total fuel root R A T Hf) as P.
+    destruct (pass fuel root R) as [R1 r1]. simpl in P. apply IH. exact P.
+  Qed.
+
+  Lemma thm_resolve_total root : answers_in -> client_total ->
+    forall fuel, (S (length U) <= fuel)%nat -> good (resolve fuel root).
+  Proof.
+    intros A T fuel Hf. unfold MavenRes.resolve, MavenRes.resolve_full.
+    pose proof (pass_total fuel root [] A T Hf) as P.
+    destruct (pass fuel root []) as [R1 r1]. simpl in P. now apply retry_total.
+  Qed.
+  End Total.
 End Proofs.
